@@ -288,7 +288,7 @@ quantifier = (
     | Keyword("any", ident_chars=identifier_chars)
     | Keyword("all", ident_chars=identifier_chars)
 )
-identifier_pattern = Word(alphanums + "*_")
+identifier_pattern = Word(alphanums + "*_-")
 selector = quantifier + Keyword("of", ident_chars=identifier_chars) + identifier_pattern
 selector.set_parse_action(ConditionSelector.from_parsed)
 
